@@ -97,6 +97,21 @@ else:
     for n in names:
         status["theorems"].append({"name": n, "axioms": ["?"], "ok": False})
     if not status["props_built"]:
+        # name the theorems in which the errors occur (nearest preceding `theorem` line)
+        try:
+            lines = open(props_file).read().split("\n")
+        except OSError:
+            lines = []
+        seen = set()
+        for m in re.finditer(r"Props/" + prop + r"\.lean:(\d+):\d+: error", log):
+            ln = int(m.group(1))
+            for i in range(min(ln, len(lines)) - 1, -1, -1):
+                mm = re.match(r"theorem\s+(\S+)", lines[i])
+                if mm:
+                    if mm.group(1) not in seen:
+                        seen.add(mm.group(1))
+                        status["broken"].append(f"theorem {mm.group(1)} (Props/{prop}.lean:{ln}) no longer checks")
+                    break
         errs = re.findall(r"error: ([^\n]*)", log)
         mods = re.findall(r"✖ \[\d+/\d+\] (?:Building|Running) (\S+)", log)
         status["broken"] += [f"module {m} does not build" for m in mods[:8]] + errs[:8]
